@@ -144,6 +144,23 @@ Proof. reflexivity. Qed.
 Lemma wf_refused_row : forall c e, row_wf (refused_row c e).
 Proof. intros. unfold row_wf, res_free. cbn. repeat split. Qed.
 
+(* round 4: the delayed-disconnect queue (ConnectionList::erase(.., disconnect_delayed) / disconnect_queued) *)
+Lemma set_dqueue_inv : forall l s, Inv s -> Inv (set_dqueue l s).
+Proof. intros l s H. exact H. Qed.
+Lemma erase_queued_inv : forall c s, Inv s -> Inv (erase_queued c s).
+Proof.
+  intros c s H. unfold erase_queued. destruct (get_row c (rows s)) as [r|]; auto.
+  destruct (is_conn r); auto. apply abort_conn_inv; auto.
+Qed.
+Lemma fire_fold_inv : forall l s, Inv s -> Inv (fold_left (fun s c => erase_queued c s) l s).
+Proof. induction l; intros s H; cbn; auto. apply IHl. apply erase_queued_inv; auto. Qed.
+Lemma disc_fire_inv : forall s, Inv s -> Inv (disc_fire s).
+Proof. intros s H. unfold disc_fire. apply set_dqueue_inv. apply fire_fold_inv; auto. Qed.
+Lemma disc_delay_inv : forall c s, Inv s -> Inv (disc_delay c s).
+Proof.
+  intros c s H. unfold disc_delay. destruct (get_row c (rows s)) as [r|]; [destruct (is_conn r)|]; auto.
+Qed.
+
 Lemma step_inv : forall s o, Inv s -> Inv (step s o).
 Proof.
   intros s o H. destruct o; cbn [step].
@@ -173,6 +190,8 @@ Proof.
   - unfold with_conn. apply with_row_inv; auto with c16.
   - exact H.
   - exact H.
+  - apply disc_delay_inv; auto.
+  - apply disc_fire_inv; auto.
 Qed.
 
 Lemma init_inv : forall sd, Inv (init sd).
@@ -287,7 +306,7 @@ Proof.
       destruct (upd _ _ _) as [[? ?] ?]. reflexivity. }
     rewrite K. exact O. }
   cbn [step]. rewrite O1. cbn [active g].
-  assert (I : Inv (mkSt (rows s1) (g s1) (blocks s1) true true (seeding s1) (rej s1) (pexact s1) (maxc s1) (hq s1) (sockfull s1) (maxpex s1))).
+  assert (I : Inv (mkSt (rows s1) (g s1) (blocks s1) true true (seeding s1) (rej s1) (pexact s1) (maxc s1) (hq s1) (sockfull s1) (maxpex s1) (dqueue s1))).
   { exact (ledger_inv sd (ops ++ [Stop])). }
   split; [reflexivity|]. split; [exact Q|]. split; [exact I|].
   intros more0. apply fold_inv. exact I.
